@@ -7,7 +7,7 @@ Real == [sp : InSystem, role : {"topCG", "topAA", "coorAA"}]
 Distractors == {[sp |-> "Z", role |-> "topOther"], [sp |-> "A", role |-> "topClone"], [sp |-> "A", role |-> "coorCG"],
                 [sp |-> "-", role |-> "sys"], [sp |-> "-", role |-> "txt"]}
 DistractorSets == IF Tier = "quick" THEN {{}, Distractors} ELSE SUBSET Distractors
-MCInit == \E r \in SUBSET Real, d \in DistractorSets, e \in SUBSET InSystem, x \in SUBSET InSystem :
-             CInit([cands |-> r \cup d, explicit |-> e, exclude |-> x])
+MCInit == \E r \in SUBSET Real, d \in DistractorSets, e \in SUBSET InSystem, x \in SUBSET InSystem, sh \in BOOLEAN :
+             CInit([cands |-> r \cup d \cup (IF sh THEN {Shared} ELSE {}), explicit |-> e, exclude |-> x])
 MCSpec == MCInit /\ [][CNext]_cvars
 =============================================================================
